@@ -9,3 +9,7 @@ open Pcore.Heap
 #print axioms C08_appendToReceiver_refutes
 #print axioms C08_resliceThenAppend_breaks
 #print axioms C08_inPlace_breaks
+#print axioms C08_caches_safe
+#print axioms C08_cache_coherent
+#print axioms C08_stale_cache_breaks
+#print axioms C08_pointer_stable
